@@ -10,7 +10,7 @@ use crate::model::*;
 use crate::tape::Tape;
 use serde_avro_fast::ser::SerializerConfig;
 
-pub const RULE: &str = "case = (generated schema or a bytes-payload schema, value sequence, codec in {null, deflate, bzip2, snappy, xz, zstandard}, level (default / explicit incl. values that must be clipped), approx_block_size in {0,1,2,10,100,1000,4096,65536,...}, op list over {serialize, serialize_all, push_serialized(concatenated datums, n), finish_block}); 'big' cases place the UNCOMPRESSED block length exactly on {8191,8192,8193,16384,32767,32768,32769,40000,65535,65536,65537,100000,140000} with compressible or incompressible (xorshift) content so that compressed lengths cross the encoder's 32 KiB buffer and its doublings; every file is read back by the reference parser and by the crate from a slice, BufReaders of capacity {1,7,4096,8192,8193} and a chunked reader; \
+pub const RULE: &str = "case = (generated schema or a bytes-payload schema, value sequence, codec in {null, deflate, bzip2, snappy, xz, zstandard}, level (default / explicit incl. values that must be clipped), approx_block_size in {0,1,2,10,100,1000,4096,65536,...}, op list over {serialize, serialize_all, push_serialized(concatenated datums, n), finish_block}); 'big' cases place the UNCOMPRESSED block length exactly on {8191,8192,8193,16384,32767,32768,32769,40000,65535,65536,65537,100000,140000} with compressible or incompressible (xorshift) content so that compressed lengths cross the encoder's 32 KiB buffer and its doublings; every file is read back by the reference parser and by the crate from a slice, BufReaders of capacity {1,7,4096,8192,8193} and a chunked reader, the reader's public entry points (deserialize_seed_next, deserialize_next, the deserialize() iterator and, for slices, deserialize_next_borrowed / deserialize_borrowed) taking turns call by call; \
 non-trivial = the file has >=2 blocks, or is a 'big' boundary case, or mixes push_serialized and finish_block; distinct = hash of (schema JSON, history outline, value encodings)";
 
 pub fn run(tape: &[u8], ctx: &mut Ctx) {
